@@ -4,8 +4,8 @@ import numpy as np
 from vlib import caseio, runner
 
 ID = "C06"
-COQ_PREFIXES = ["C06", "C07"]
-COQ_TARGETS = ["C06_Extract.vo", "C06_Proofs.vo"]
+COQ_PREFIXES = ["C06", "C07", "C13"]
+COQ_TARGETS = ["C06_Extract.vo", "C06_Proofs.vo", "C06_CmdProofs.vo"]
 EXTRACTED = "C06_model"
 DRIVER = "drv_C06.ml"
 HARNESS = "h_C06.cpp"
@@ -14,32 +14,48 @@ AXIOMS_ALLOWED = runner.REAL_AXIOMS
 MODEL_NEEDS_IMPL = True      # the mirrored random offsets of the resampling calls are printed by the harness
 REQUIRED_THEOREMS = ["C06_inv", "C06_inv_every_step", "C06_ln_args_positive", "C06_reweight", "C06_no_measurement",
                      "C06_resample_iff", "C06_resample_keeps_layout", "C06_trace_full_bridge", "C06_no_usable_likelihood",
-                     "C06_settled_after_step", "C06_no_measurement_end_of_step", "C06_step_sites_positive"]
-RULE = ("histories from one seeded stream: 1..40 steps, N in 1..50, layouts (dl in 1..2, dc in 0..1), per step: freeze ok/fails, "
-        "skip prediction / correction flags, likelihood valid/invalid, likelihood rows ordinary / vanishing (0, 1e-300) / one dominant / all zero "
-        "(scripted LikelihoodModel) or the library's GaussianLikelihood over a linear measurement model with near / far measurements (30%); "
-        "non-trivial = the history contains a failed acquisition or a vanishing likelihood row (resamplings are counted in the histogram); "
-        "distinct by (N, layout, steps, #freeze failures, #vanishing rows)")
+                     "C06_settled_after_step", "C06_no_measurement_end_of_step", "C06_step_sites_positive",
+                     "C06_cmd_inv_every_step", "C06_cmd_inv_after_step", "C06_cmd_flags_by_rule", "C06_cmd_reweight", "C06_cmd_no_measurement",
+                     "C06_cmd_no_usable_likelihood", "C06_cmd_prediction", "C06_cmd_resample_iff", "C06_cmd_resampled_uniform",
+                     "C06_cmd_no_measurement_end_of_step", "C06_cmd_all_off_nothing_skipped", "C06_cmd_trace_full_bridge"]
+RULE = ("histories from one seeded stream: 1..40 steps, N in 1..50, layouts (dl, dc) from 9 shapes incl. purely circular, per step: freeze ok/fails, "
+        "RAW skip commands skip(name, on/off) (names prediction/state/exogenous/correction/all/unknown, 1-3 per burst, staying in force; flags are "
+        "dispatched by the extracted model, not by the generator), FilteringAlgorithm::reset() in the middle of a pass (25% of the histories), "
+        "filters without / with an exogenous model (attached through the state model or the DrawParticles constructor), likelihood valid/invalid, "
+        "likelihood rows ordinary / vanishing (0, 1e-300) / one dominant / all zero / huge (up to DBL_MAX) / homogeneously scaled over 590 orders "
+        "(scripted LikelihoodModel) or the library's GaussianLikelihood (30%) over a linear measurement model whose H_k, R_k, y_k and size m_k in 1..3 "
+        "change per step (or are bit-identical), near / far measurements, scale factors 0, 1e-300..1e200, each of its four model calls failing; "
+        "state and measurement coordinates in physical units over 12 orders (homogeneous and coordinate-wise), tolerances in unit-free coordinates; "
+        "initial weights ordinary / uniform / degenerate / spread over 600 orders; parts obtained by move construction / vector growth / move "
+        "assignment, fresh or after use; callback re-entrancy (a twin filter runs a complete step inside every model callback, 25%); "
+        "non-trivial = the history contains a failed acquisition, a vanishing likelihood row or a reset; "
+        "distinct by (N, layout, steps, #freeze failures, #vanishing rows, #resets, exogenous model)")
 TRUSTED_BASE = ["Coq 8.16.1 kernel (coqc); the four real-number axioms of the standard library",
                 "extraction (ExtrOcamlBasic only) and ocaml/float_ops.ml, ocaml/drv_C06.ml, ocaml/caseio.ml",
-                "cpp/h_C06.cpp probe subclass of SIS driven synchronously (no thread), scripted models, mirrored RNG of the logging Resampling",
+                "cpp/h_C06.cpp probe subclass of SIS run by the library's filtering thread, scripted models, mirrored RNG of the logging Resampling; "
+                "the driver's translation of command tokens into the model's command type",
                 "theorems over exact reals: rounding not modelled; resampling decisions with |neff - N/3| < 1e-9 and comb points within 1e-12 of a "
                 "cumulative weight end the comparison of that history (counted)",
                 "correspondence is sampled: agreement is established on the generated histories only"]
-ASSUMPTIONS = ["the prediction moves states only and copies the weights (DrawParticles; premise of the model's predict)",
+ASSUMPTIONS = ["the prediction moves states only and copies the weights (DrawParticles; premise of the model's predict); the state model's motion "
+               "depends on the skip flags only through the branch of propagate they select (LinearStateModel::propagate)",
                "a valid likelihood vector has one non-negative entry per particle (GaussianLikelihood: scale_factor >= 0; a negative scale_factor "
                "makes ln(lik + tiny) NaN and every weight NaN for ever: outside the domain, not modelled)",
                "GaussianLikelihood itself is not modelled: on Gaussian histories the model receives the library's likelihood vector, which the oracle "
                "checks against the closed form scale*N(y - Hx; 0, R) (C15 owns the density model)",
-               "the initialisation returns N particles with normalised log-weights",
+               "the initialisation (also after FilteringAlgorithm::reset()) returns N particles with normalised finite log-weights and leaves the layout fields alone",
                "resampling is the base class Resampling (C07 model); 0 < u1 < 1/N is not needed for C06's clauses"]
 
-COUNTS = {"quick": 200, "thorough": 3000}
+COUNTS = {"quick": 420, "thorough": 3500}
+SEARCH_CASES = 500
 NEAR_NEFF = 1e-9
 NEAR_COMB = 1e-12
 TINY = 2.2250738585072014e-308
+DBL_MAX = 1.7976931348623157e308
 
-_stats = {"near_boundary_same_decision": 0, "near_boundary_skipped": 0, "steps_compared": 0, "resamplings": 0, "freeze_failures": 0}
+_stats = {"near_boundary_same_decision": 0, "near_boundary_skipped": 0, "steps_compared": 0, "resamplings": 0, "freeze_failures": 0,
+          "resets": 0, "commands": 0, "intruder_calls": 0, "histories_with_intruder": 0, "concurrent_probes": 0,
+          "steps_correction_skipped": 0, "steps_prediction_skipped": 0, "steps_exo_only": 0, "steps_state_only_with_exo": 0}
 
 
 def lik_row(rng, N, kind):
@@ -52,84 +68,158 @@ def lik_row(rng, N, kind):
         return r
     if kind == "zero":
         return [0.0] * N
+    if kind == "huge":
+        # likelihoods are densities: in small units they are huge; their SUM overflows although each is finite
+        return [min(DBL_MAX, 10.0 ** rng.uniform(300.0, 308.25)) if rng.random() < 0.8 else rng.random() for _ in range(N)]
+    if kind == "scaled":
+        # one homogeneous factor over ~600 orders of magnitude: the normalised weights do not depend on it (up to + tiny)
+        f = 10.0 ** rng.uniform(-307.0, 290.0)
+        return [rng.random() * f for _ in range(N)]
     return [1.0] * N
 
 
-def generate(rng, tier):
-    cases = []
-    for cid in range(COUNTS[tier]):
-        N = rng.choice([1, 2, 3, 4, 5]) if rng.random() < 0.15 else rng.randint(6, 50)
-        K = rng.randint(1, 40)
-        dl, dc = rng.randint(1, 2), rng.randint(0, 1)
-        d = dl + dc
-        r0 = rng.random()
-        if r0 < 0.55:
-            w = np.array([rng.random() + 0.05 for _ in range(N)])
-        elif r0 < 0.8:
-            w = np.ones(N)
+NAMES = ["prediction", "state", "exogenous", "correction", "all", "bogus"]
+
+
+def cmd_token(rng, names, weights, nmax=3):
+    toks = []
+    for _ in range(rng.choice(list(range(1, nmax + 1)))):
+        toks.append(rng.choices(names, weights)[0] + ("+" if rng.random() < 0.45 else "-"))
+    return ",".join(toks)
+
+
+def units(rng, n, span):
+    """coordinate units: all one / one homogeneous factor / one factor per coordinate, over 2*span orders of magnitude"""
+    r = rng.random()
+    if r < 0.4:
+        return np.ones(n)
+    if r < 0.7:
+        return np.full(n, 10.0 ** rng.uniform(-span, span))
+    return np.array([10.0 ** rng.uniform(-span, span) for _ in range(n)])
+
+
+def lse(x):
+    m = np.max(x)
+    return m + math.log(float(np.sum(np.exp(x - m))))
+
+
+def one_case(rng, cid):
+    N = rng.choice([1, 2, 3, 4, 5]) if rng.random() < 0.15 else rng.randint(6, 50)
+    K = rng.randint(1, 40)
+    dl, dc = rng.choice([(1, 0), (2, 0), (1, 1), (2, 1), (0, 1), (0, 2), (3, 2), (4, 0), (1, 3)])
+    d = dl + dc
+    u = units(rng, d, 6.0)                                   # state units (physical scale of every state coordinate)
+    r0 = rng.random()
+    if r0 < 0.45:
+        lw = np.log(np.array([rng.random() + 0.05 for _ in range(N)]))
+    elif r0 < 0.65:
+        lw = np.zeros(N)
+    elif r0 < 0.8:
+        # weights spread over hundreds of orders of magnitude
+        lw = np.array([rng.uniform(-600.0, 0.0) for _ in range(N)])
+    else:
+        # degenerate INITIAL weights: with a failed first acquisition the copied initial set itself is resampled at step 0
+        w = np.array([rng.random() * 1e-4 for _ in range(N)]); w[rng.randrange(N)] = 1.0
+        lw = np.log(w)
+    lw = lw - lse(lw)
+    pf = rng.choice([0.0, 0.1, 0.3])       # probability of a failed acquisition
+    first_fails = r0 >= 0.8 and rng.random() < 0.6
+    exo = rng.choices(["0", "sm", "ctor"], [0.5, 0.3, 0.2])[0]
+    names_w = [3, 3, 3 if exo != "0" else 1, 3, 3, 0.6]
+    busy = rng.random() < 0.5            # half of the histories issue commands at ~35% of the steps, the others rarely
+    with_resets = rng.random() < 0.25
+    gauss = rng.random() < 0.3
+    varying = rng.random() < 0.7         # models change from step to step (otherwise bit-identical over the history)
+    fr, lv, rows, kinds, cmds, resets, likfail, ms = [], [], [], [], [], [], [], []
+    Fs, Gs, Hs, Rs, ys = [], [], [], [], []
+    e = units(rng, 3, 6.0)                                   # measurement units
+    m_const = rng.randint(1, 3)
+    for k in range(K):
+        fr.append(0 if (rng.random() < pf or (k == 0 and first_fails)) else 1)
+        # skip commands are a HISTORY of raw commands skip(name, on/off): they stay in force until another command changes
+        # the flag (not matched on/off pairs: skip(correction, on) ... skip(all, off) must leave nothing skipped).  What the
+        # flags are is NOT computed here: the extracted model dispatches the commands (C06_Cmd.v / C13_Model.v).
+        cmds.append(cmd_token(rng, NAMES, names_w) if rng.random() < (0.35 if busy else 0.08) else "none")
+        resets.append(1 if (with_resets and rng.random() < 0.12) else 0)
+        lv.append(0 if rng.random() < 0.1 else 1)
+        likfail.append(rng.choice(["measure", "predicted", "innovation", "cov"]) if (gauss and rng.random() < 0.08) else "none")
+        kind = rng.choice(["ordinary", "ordinary", "vanishing", "dominant", "zero", "flat", "huge", "scaled"])
+        rep = k > 0 and rng.random() < 0.2       # this step repeats operands of the previous one bit for bit (each independently)
+        kinds.append(kind)
+        rows.append(rows[-1] if (rep and rng.random() < 0.5) else lik_row(rng, N, kind))
+        if k > 0 and (not varying or (rep and rng.random() < 0.5)):
+            Fs.append(Fs[-1]); Gs.append(Gs[-1])
         else:
-            # degenerate INITIAL weights: with a failed first acquisition the copied initial set itself is resampled at step 0
-            w = np.array([rng.random() * 1e-4 for _ in range(N)]); w[rng.randrange(N)] = 1.0
-        lw = np.log(w / w.sum())
-        pf = rng.choice([0.0, 0.1, 0.3])       # probability of a failed acquisition
-        first_fails = r0 >= 0.8 and rng.random() < 0.6
-        fr, sp, sc, lv, rows, kinds, cmds = [], [], [], [], [], [], []
-        # skip commands are a HISTORY: before a step zero, one or two raw commands skip(name, on/off) are issued and
-        # stay in force until another command changes them (not only matched on/off pairs of the same name:
-        # skip(correction, on) ... skip(all, off) must leave nothing skipped).  Flags as the dispatch sets them
-        # (ParticleFilter::skip -> PFPrediction::skip / PFCorrection::skip -> StateModel::skip; proved in C13):
-        # P prediction step, S state model, C correction step.
-        P = S = C = 0
-        busy = rng.random() < 0.5            # half of the histories issue commands at ~35% of the steps, the others rarely
-        for k in range(K):
-            fr.append(0 if (rng.random() < pf or (k == 0 and first_fails)) else 1)
-            toks = []
-            if rng.random() < (0.35 if busy else 0.08):
-                for _ in range(rng.choice([1, 1, 2])):
-                    name = rng.choice(["prediction", "state", "correction", "all"]); on = rng.random() < 0.55
-                    toks.append(name + ("+" if on else "-"))
-                    b = 1 if on else 0
-                    if name == "prediction": P = S = b
-                    elif name == "state": S = b; P = b   # PFPrediction::skip("state"): skip_ = state skipped & (no exogenous model | it is skipped); the harness attaches none
-                    elif name == "correction": C = b
-                    else: P = S = C = b
-            cmds.append(",".join(toks) if toks else "none")
-            sp.append(1 if (P or S) else 0)
-            sc.append(C)
-            lv.append(0 if rng.random() < 0.1 else 1)
-            kind = rng.choice(["ordinary", "ordinary", "vanishing", "dominant", "zero", "flat"])
-            kinds.append(kind)
-            rows.append(lik_row(rng, N, kind))
-        gauss = rng.random() < 0.3
-        c = caseio.Case(cid, "sis", {"N": N, "K": K, "dl": dl, "dc": dc, "likmodel": "gauss" if gauss else "scripted",
-                                     "nfail": fr.count(0), "nvanish": sum(1 for q in kinds if q in ("vanishing", "zero"))})
-        c.mat_shape("init_state", d, N, [[rng.uniform(-3, 3) for _ in range(N)] for _ in range(d)])
-        c.mat_shape("init_lw", N, 1, lw)
-        c.mat_shape("init_mean", d, N, [[rng.uniform(-3, 3) for _ in range(N)] for _ in range(d)])
-        c.mat_shape("init_cov", d, d * N, [[rng.uniform(-1, 1) for _ in range(d * N)] for _ in range(d)])
-        c.mat_shape("lik", K, N, rows)
-        c.mat_shape("shift", K, d, [[rng.uniform(-0.5, 0.5) for _ in range(d)] for _ in range(K)])
-        c.mat_shape("a", 1, 1, [rng.choice([1.0, 0.9, -0.75])])
+            a = rng.choice([1.0, 0.9, -0.75, 0.5])
+            E = np.array([[rng.uniform(-0.05, 0.05) for _ in range(d)] for _ in range(d)]) if rng.random() < 0.5 else np.zeros((d, d))
+            Fs.append(a * np.eye(d) + E)
+            Gs.append(np.array([[rng.uniform(-0.1, 0.1) for _ in range(d)] for _ in range(d)]))
         if gauss:
-            # GaussianLikelihood over y = H x + v: measurements near the particle cloud, or far away (densities underflow to 0)
-            m = rng.randint(1, 2)
-            A = np.array([[rng.uniform(-1, 1) for _ in range(m)] for _ in range(m)])
-            c.mat_shape("H", m, d, [[rng.uniform(-1, 1) for _ in range(d)] for _ in range(m)])
-            c.mat_shape("Rm", m, m, A @ A.T + np.eye(m) * rng.choice([1e-6, 0.05, 0.5, 2.0]))     # 1e-6: ill-conditioned for m = 2
-            c.mat_shape("ys", K, m, [[rng.uniform(-2, 2) * (1.0 if kinds[k] != "vanishing" else 60.0) for _ in range(m)] for k in range(K)])
-            c.mat_shape("scale", 1, 1, [rng.choice([1.0, 2.5, 0.0])])     # scale 0: every likelihood vanishes
-        c.word("freeze", fr).word("skipp", sp).word("skipc", sc).word("likvalid", lv).word("cmd", cmds)
-        c.int("seed", rng.randrange(0, 2 ** 32))
-        cases.append(c)
-    return cases
+            m = m_const if (not varying or rng.random() < 0.6) else rng.randint(1, 3)
+            ms.append(m)
+            keepH = k > 0 and ms[-2] == m and (not varying or (rep and rng.random() < 0.5))
+            keepR = k > 0 and ms[-2] == m and (not varying or (rep and rng.random() < 0.5))
+            keepy = k > 0 and ms[-2] == m and rep and rng.random() < 0.5
+            H = np.zeros((3, d)); R = np.zeros((3, 3)); y = np.zeros(3)
+            H[:m, :] = Hs[-1][:m, :] if keepH else [[rng.uniform(-1, 1) for _ in range(d)] for _ in range(m)]
+            if keepR:
+                R[:m, :m] = Rs[-1][:m, :m]
+            else:
+                A = np.array([[rng.uniform(-1, 1) for _ in range(m)] for _ in range(m)])
+                R[:m, :m] = A @ A.T + np.eye(m) * rng.choice([1e-6, 0.05, 0.5, 2.0])      # 1e-6: ill-conditioned for m >= 2
+            y[:m] = ys[-1][:m] if keepy else [rng.uniform(-2, 2) * (1.0 if kind != "vanishing" else 60.0) for _ in range(m)]
+            Hs.append(H); Rs.append(R); ys.append(y)
+    life = lambda kinds_: rng.choices(kinds_, [0.55] + [0.45 / (len(kinds_) - 1)] * (len(kinds_) - 1))[0]
+    meta = {"N": N, "K": K, "dl": dl, "dc": dc, "likmodel": "gauss" if gauss else "scripted", "exo": exo,
+            "nfail": fr.count(0), "nvanish": sum(1 for q in kinds if q in ("vanishing", "zero")), "nreset": sum(resets[:-1]),
+            "life_pred": life(["fresh", "moved", "vector", "assigned"]), "life_corr": life(["fresh", "moved", "vector"]),
+            "life_res": life(["fresh", "moved", "vector", "assigned"]),
+            "used_pred": int(rng.random() < 0.4), "used_corr": int(rng.random() < 0.4), "used_res": int(rng.random() < 0.4),
+            "intrude": int(rng.random() < 0.25), "conc": int(rng.random() < 0.04)}
+    c = caseio.Case(cid, "sis", meta)
+    U = u.reshape(-1, 1)
+    c.mat_shape("ustate", 1, d, u)
+    c.mat_shape("init_state", d, N, U * np.array([[rng.uniform(-3, 3) for _ in range(N)] for _ in range(d)]))
+    c.mat_shape("init_lw", N, 1, lw)
+    c.mat_shape("init_mean", d, N, U * np.array([[rng.uniform(-3, 3) for _ in range(N)] for _ in range(d)]))
+    c.mat_shape("init_cov", d, d * N, U * np.array([[rng.uniform(-1, 1) for _ in range(d * N)] for _ in range(d)]) * np.tile(u, N).reshape(1, -1))
+    c.mat_shape("lik", K, N, rows)
+    c.mat_shape("shift", K, d, np.array([[rng.uniform(-0.5, 0.5) for _ in range(d)] for _ in range(K)]) * u.reshape(1, -1))
+    c.mat_shape("off", 1, d, 0.01 * u)
+    scale_mat = lambda M: U * M / u.reshape(1, -1)          # a d x d map between states, in the state units
+    c.mat_shape("Fs", d, K * d, np.hstack([scale_mat(F) for F in Fs]))
+    if exo != "0":
+        c.mat_shape("Gs", d, K * d, np.hstack([scale_mat(G) for G in Gs]))
+        c.mat_shape("shift2", K, d, np.array([[rng.uniform(-0.3, 0.3) for _ in range(d)] for _ in range(K)]) * u.reshape(1, -1))
+    if gauss:
+        # GaussianLikelihood over y = H_k x + v, v ~ N(0, R_k): measurements near the particle cloud, or far away (densities
+        # underflow to 0); state and measurement coordinates in their units
+        Ecol = e.reshape(-1, 1)
+        c.mat_shape("umeas", 1, 3, e)
+        c.mat_shape("Hs", 3 * K, d, np.vstack([Ecol * H / u.reshape(1, -1) for H in Hs]))
+        c.mat_shape("Rs", 3 * K, 3, np.vstack([Ecol * R * e.reshape(1, -1) for R in Rs]))
+        c.mat_shape("ys", K, 3, np.array(ys) * e.reshape(1, -1))
+        c.word("ms", ms)
+        # scale 0: every likelihood vanishes; tiny scales: a likelihood that underflows only as the product scale * density
+        c.mat_shape("scale", 1, 1, [rng.choice([1.0, 2.5, 0.0, 1e-200, 1e-300, 1e200])])
+    c.word("freeze", fr).word("likvalid", lv).word("cmd", cmds).word("reset", resets).word("likfail", likfail)
+    c.word("precmd_pred", [cmd_token(rng, ["prediction", "state", "exogenous"], [1, 1, 1], 2)])
+    c.word("precmd_corr", [rng.choice(["correction+", "correction-", "correction+,correction-"])])
+    c.int("pre_draws", rng.randint(0, 3))
+    c.int("seed", rng.randrange(0, 2 ** 32))
+    return c
+
+
+def generate(rng, tier):
+    return [one_case(rng, cid) for cid in range(COUNTS[tier])]
 
 
 _res_count = {}
 
 
 def nontrivial(c):
-    if int(c.meta["nfail"]) > 0 or int(c.meta["nvanish"]) > 0:
-        return (c.meta["N"], c.meta["dl"], c.meta["dc"], c.meta["K"], c.meta["nfail"], c.meta["nvanish"])
+    if int(c.meta["nfail"]) > 0 or int(c.meta["nvanish"]) > 0 or int(c.meta["nreset"]) > 0:
+        return (c.meta["N"], c.meta["dl"], c.meta["dc"], c.meta["K"], c.meta["nfail"], c.meta["nvanish"], c.meta["nreset"], c.meta["exo"])
     return None
 
 
@@ -143,19 +233,36 @@ def same_bits(a, b):
     return a.shape == b.shape and bool(np.all((a == b) | (np.isnan(a) & np.isnan(b))))
 
 
-def lse(x):
-    m = np.max(x)
-    return m + math.log(float(np.sum(np.exp(x - m))))
+def ustate(c):
+    return c.get("ustate").reshape(-1, 1) if c.has("ustate") else np.ones((int(c.meta["dl"]) + int(c.meta["dc"]), 1))
 
 
 def gauss_density(c, k, states):
-    """scale * N(y_k - H x_i; 0, Rm) for every column x_i of states (GaussianLikelihood.cpp, closed form)"""
-    H, Rm, y = c.get("H"), c.get("Rm"), c.get("ys")[k, :].reshape(-1, 1)
-    inn = y - H @ states
-    m = H.shape[0]
-    q = np.sum(inn * np.linalg.solve(Rm, inn), axis=0)
-    with np.errstate(under="ignore"):
-        return float(c.get("scale")[0, 0]) * np.exp(-0.5 * (m * math.log(2 * math.pi) + math.log(np.linalg.det(Rm)) + q))
+    """scale * N(y_k - H_k x_i; 0, R_k) for every column x_i of states (GaussianLikelihood.cpp, closed form), evaluated in
+    unit-free coordinates (the units enter through det R only); returns (values, condition number of the unit-free R_k)"""
+    m = int(c.get("ms")[k])
+    e = c.get("umeas").reshape(-1)[:m]
+    H = c.get("Hs")[3 * k:3 * k + m, :]
+    R = c.get("Rs")[3 * k:3 * k + m, :m] / e.reshape(-1, 1) / e.reshape(1, -1)
+    y = c.get("ys")[k, :m].reshape(-1, 1)
+    inn = (y - H @ states) / e.reshape(-1, 1)
+    q = np.sum(inn * np.linalg.solve(R, inn), axis=0)
+    logd = -0.5 * (m * math.log(2 * math.pi) + math.log(np.linalg.det(R)) + 2.0 * float(np.sum(np.log(e))) + q)
+    sc = float(c.get("scale")[0, 0])
+    with np.errstate(under="ignore", over="ignore", divide="ignore", invalid="ignore"):
+        val = np.where(sc == 0.0, 0.0, np.exp(logd + (math.log(sc) if sc > 0 else 0.0)))
+    return val, float(np.linalg.cond(R)), q
+
+
+def rot_cols(a, r):
+    a = np.asarray(a, dtype=float)
+    return np.roll(a, -r, axis=1) if a.shape[1] else a
+
+
+def init_of(c, r):
+    """the r-th initialisation of the history: the initial matrices with columns rotated by r"""
+    d = c.get("init_state").shape[0]
+    return (rot_cols(c.get("init_state"), r), np.roll(c.get("init_lw").reshape(-1), -r), rot_cols(c.get("init_mean"), r), rot_cols(c.get("init_cov"), r * d))
 
 
 def aux_diffs(c, impl, model, tag, sk):
@@ -170,6 +277,18 @@ def aux_diffs(c, impl, model, tag, sk):
         a = int(aux[j])
         if not (same_bits(mn[:, j], im[:, a]) and same_bits(cv[:, j * d:(j + 1) * d], ic[:, a * d:(a + 1) * d])):
             return ["%s set, particle %d: mean/covariance are not those of initial particle %d" % ("corrected" if tag == "c" else "predicted", j, a)]
+    return []
+
+
+def states_diff(c, impl, model, name):
+    a, b = impl.get(name), model.get(name)
+    if a is None or b is None or np.asarray(a).shape != np.asarray(b).shape:
+        return ["%s: missing or shapes differ" % name]
+    U = ustate(c)
+    a, b = np.asarray(a, dtype=float) / U, np.asarray(b, dtype=float) / U       # back to unit-free coordinates
+    mag = max(1.0, float(np.max(np.abs(b))) if b.size else 1.0)
+    if not caseio.close(a, b, 1e-11 * mag, 0.0):
+        return ["%s: max|impl-model| = %.3g in units of the state coordinates (tol %.3g)" % (name, caseio.maxdiff(a, b), 1e-11 * mag)]
     return []
 
 
@@ -189,8 +308,13 @@ def compare(c, impl, model):
         _stats["steps_compared"] += 1
         ints = ["cn", "cdl", "cdc", "pn", "pdl", "pdc", "res"]
         d = caseio.compare_fields(impl, model, [f + sk for f in ints], 0, 0)
+        # the skip machinery: answers to the raw commands, and the flags the library objects report after them
+        d += caseio.compare_fields(impl, model, ["ret" + sk], 0, 0)
+        for fo, fm in (("obsP", "fP"), ("obsS", "fS"), ("obsE", "fE")):
+            if impl.get(fo + sk) != model.get(fm + sk):
+                d.append("%s: the library reports %s, the dispatched commands give %s" % (fo + sk, impl.get(fo + sk), model.get(fm + sk)))
         d += caseio.compare_fields(impl, model, ["plw" + sk], atol=1e-9, rtol=0)
-        d += caseio.compare_fields(impl, model, ["pst" + sk], atol=1e-12, rtol=1e-12)
+        d += states_diff(c, impl, model, "pst" + sk)
         d += caseio.compare_fields(impl, model, ["neff" + sk], atol=0, rtol=1e-9)
         d += aux_diffs(c, impl, model, "p", sk)
         if impl.get("lstep" + sk) is None or impl.get("lstep" + sk) + 1 != model.get("step" + sk):
@@ -206,7 +330,7 @@ def compare(c, impl, model):
             diffs += ["step %d: %s" % (k, x) for x in d]
             break
         d += caseio.compare_fields(impl, model, ["clw" + sk], atol=1e-9, rtol=0)
-        d += caseio.compare_fields(impl, model, ["cst" + sk], atol=1e-12, rtol=1e-12)
+        d += states_diff(c, impl, model, "cst" + sk)
         d += aux_diffs(c, impl, model, "c", sk)
         if d:
             diffs += ["step %d: %s" % (k, x) for x in d]
@@ -214,21 +338,47 @@ def compare(c, impl, model):
     return diffs
 
 
+def motion_spec(c, k, mode, X):
+    """the state model's motion of step k on the columns of X, by the branch of LinearStateModel::propagate the flags select"""
+    d = X.shape[0]
+    F = c.get("Fs")[:, k * d:(k + 1) * d]
+    if mode == "full" or mode == "exo":
+        ex = c.get("Gs")[:, k * d:(k + 1) * d] @ X + c.get("shift2")[k, :].reshape(-1, 1)
+    if mode == "full":
+        P = F @ X + ex
+    elif mode == "state":
+        P = F @ X
+    elif mode == "exo":
+        P = ex
+    else:
+        return None
+    return P + c.get("shift")[k, :].reshape(-1, 1) + c.get("off").reshape(-1, 1) * np.arange(1, X.shape[1] + 1).reshape(1, -1)
+
+
 def oracle(c, impl, model):
-    """The property clauses evaluated on the implementation's own trace."""
+    """The property clauses evaluated on the implementation's own trace.  Which steps are commanded to be skipped is taken
+    from the extracted command-level model (fP / fC / mode of the model's record), not computed in Python."""
     v = []
     N, K, dl, dc = int(c.meta["N"]), int(c.meta["K"]), int(c.meta["dl"]), int(c.meta["dc"])
-    fr, sp, sc, lv = (c.get(n) for n in ("freeze", "skipp", "skipc", "likvalid"))
+    fr, lv, resets, likfail = (c.get(n) for n in ("freeze", "likvalid", "reset", "likfail"))
     lik = c.get("lik")
     gauss = c.meta.get("likmodel") == "gauss"
+    U = ustate(c)
+    if impl.get("conc_ok") == 0:
+        v.append(("C06:concurrent-evaluation", "GaussianLikelihood / Resampling / log_sum_exp evaluated from three threads on different data: "
+                                               "a result differs from the sequential one (state shared between calls)"))
     if impl.get("init_ok") != 1:
         v.append(("C06:init-failed", "initialization_step returned false")); return v
-    prev_clw, prev_cst = None, None
-    prev_c = None
+    prev_clw, prev_cst, prev_cmc = None, None, None
     nres = 0
+    ninit = 0                 # number of initialisations so far - 1
+    exp_lstep = 0
     for k in range(K):
         sk = str(k)
-        where = "step %d (N=%d, layout %d+%d)" % (k, N, dl, dc)
+        if not model.has("fC" + sk):
+            break
+        fP, fC, mode = model.get("fP" + sk) == 1, model.get("fC" + sk) == 1, model.get("mode" + sk)[0]
+        where = "step %d (N=%d, layout %d+%d, exo=%s, commands %s)" % (k, N, dl, dc, c.meta.get("exo"), c.get("cmd")[k])
         for tag, nm in (("c", "corrected"), ("p", "predicted")):
             if impl.get(tag + "n" + sk) != N or impl.get(tag + "cols" + sk) != N or col(impl, tag + "lw" + sk).size != N:
                 v.append(("C06:particle-count", "%s: %s set has %s components, %s columns, %d weights" % (where, nm, impl.get(tag + "n" + sk), impl.get(tag + "cols" + sk), col(impl, tag + "lw" + sk).size)))
@@ -248,40 +398,61 @@ def oracle(c, impl, model):
             v.append(("C06:nonfinite-weight", "%s: corrected log-weights %s" % (where, clw[:6]))); return v
         if abs(lse(clw)) > 1e-9:
             v.append(("C06:not-normalised", "%s: log-sum-exp of the corrected weights is %.3g" % (where, lse(clw)))); return v
+        if impl.get("lstep" + sk) != exp_lstep:
+            v.append(("C06:step-counter", "%s: step_number() = %s, expected %d" % (where, impl.get("lstep" + sk), exp_lstep)))
         # prediction
-        if k == 0:
-            if not (same_bits(pst, c.get("init_state")) and same_bits(plw, c.get("init_lw").reshape(-1))):
-                v.append(("C06:predicted-at-step0", "%s: the initial set was modified before the first correction" % where))
+        if exp_lstep == 0:
+            i_st, i_lw, i_mn, i_cv = init_of(c, ninit)
+            if not (same_bits(pst, i_st) and same_bits(plw, i_lw) and same_bits(pmc[0], i_mn) and same_bits(pmc[1], i_cv)):
+                v.append(("C06:predicted-at-step0", "%s: the set delivered by initialisation %d was modified before the first correction" % (where, ninit)))
         else:
-            if sp[k] == "1":
-                if not (same_bits(pst, prev_cst) and same_bits(plw, prev_clw)):
+            if fP:
+                _stats["steps_prediction_skipped"] += 1
+                if not (same_bits(pst, prev_cst) and same_bits(plw, prev_clw) and same_bits(pmc[0], prev_cmc[0]) and same_bits(pmc[1], prev_cmc[1])):
                     v.append(("C06:skip-prediction-not-identity", "%s: prediction skipped but predicted set differs from the corrected one" % where))
-            elif not same_bits(plw, prev_clw):
-                v.append(("C06:prediction-changed-weights", "%s" % where))
+            else:
+                if not same_bits(plw, prev_clw):
+                    v.append(("C06:prediction-changed-weights", "%s" % where))
+                spec_st = motion_spec(c, k, mode, prev_cst)
+                if mode == "exo": _stats["steps_exo_only"] += 1
+                if mode == "state" and c.meta.get("exo") != "0": _stats["steps_state_only_with_exo"] += 1
+                if spec_st is None:
+                    v.append(("C06:prediction-branch", "%s: prediction not skipped but the state model is asked for branch '%s'" % (where, mode)))
+                else:
+                    mag = max(1.0, float(np.max(np.abs(spec_st / U))))
+                    if not caseio.close(pst / U, spec_st / U, 1e-12 * mag, 0.0):
+                        v.append(("C06:prediction-states", "%s: predicted states differ from the motion (branch '%s') of the corrected ones by %.3g state units"
+                                  % (where, mode, caseio.maxdiff(pst / U, spec_st / U))))
         # calls
-        exp_lik = 1 if (fr[k] == "1" and sc[k] != "1") else 0
+        exp_lik = 1 if (fr[k] == "1" and not fC) else 0
+        if fC: _stats["steps_correction_skipped"] += 1
         if exp_lik == 0 and impl.get("likcalls" + sk) != 0:
             v.append(("C06:call-log", "%s: the likelihood was evaluated although the correction is skipped or the acquisition failed" % where))
         if exp_lik == 1 and impl.get("likcalls" + sk) < 1:
             v.append(("C06:call-log", "%s: the likelihood was not evaluated" % where))
-        if impl.get("lstep" + sk) != k:
-            v.append(("C06:step-counter", "%s: step_number() = %s" % (where, impl.get("lstep" + sk))))
         # the likelihood vector of this step
         lrow = lik[k, :]
+        valid = lv[k] == "1" and (not gauss or likfail[k] == "none")
         if gauss and exp_lik == 1:
-            if impl.get("lv" + sk) != (1 if lv[k] == "1" else 0):
-                v.append(("C06:likelihood-validity", "%s: GaussianLikelihood reported valid=%s, measurement available=%s" % (where, impl.get("lv" + sk), lv[k])))
-            if lv[k] == "1":
-                lrow = gauss_density(c, k, pst)
+            if impl.get("lv" + sk) != (1 if valid else 0):
+                v.append(("C06:likelihood-validity", "%s: GaussianLikelihood reported valid=%s, measurement usable=%s (failing call: %s)" % (where, impl.get("lv" + sk), valid, likfail[k])))
+            if valid:
+                lrow, cond, q = gauss_density(c, k, pst)
                 li = col(impl, "lik" + sk)
-                if li is None or li.size != N or not caseio.close(li, lrow, 1e-300, 1e-7 * max(1.0, float(np.linalg.cond(c.get("Rm"))))):
+                tol = 1e-10 + 1e-12 * max(1.0, cond) * (1.0 + np.abs(q))
+                # a density below DBL_MIN is not representable (Eigen's vectorised exp returns 5.6e-309 for every argument below
+                # -709.8 instead of 0): absolute error of one DBL_MIN on the density, carried by the scale factor
+                atol = 1e-300 + abs(float(c.get("scale")[0, 0])) * 2.3e-308
+                with np.errstate(invalid="ignore", over="ignore"):
+                    okl = li is not None and li.size == N and bool(np.all(np.isfinite(li))) and bool(np.all(np.abs(li - lrow) <= atol + np.minimum(tol, 0.5) * np.maximum(np.abs(li), np.abs(lrow))))
+                if not okl:
                     v.append(("C06:likelihood-value", "%s: likelihood %s, scale*N(y - Hx; 0, R) = %s" % (where, None if li is None else li[:4], lrow[:4])))
                 else:
                     lrow = li
         # expected corrected weights before the resampling test
         if fr[k] == "1":
             spec = plw.copy()
-            if sc[k] != "1" and lv[k] == "1":
+            if not fC and valid:
                 spec = spec + np.log(lrow + TINY)
             spec = spec - lse(spec)
         else:
@@ -305,7 +476,7 @@ def oracle(c, impl, model):
                     v.append(("C06:reweight", "%s: corrected log-weights differ from lw + log(lik + tiny) - lse by %.3g" % (where, caseio.maxdiff(clw, spec))))
                 if not (same_bits(cst, pst) and same_bits(cmc[0], pmc[0]) and same_bits(cmc[1], pmc[1])):
                     v.append(("C06:correction-moved-states", "%s: states, means or covariances differ between predicted and corrected set" % where))
-                if (sc[k] == "1" or lv[k] != "1") and not caseio.close(clw, plw, 1e-9, 0.0):
+                if (fC or not valid) and not caseio.close(clw, plw, 1e-9, 0.0):
                     v.append(("C06:unusable-measurement-not-predicted", "%s: correction skipped or likelihood invalid but corrected weights differ from the predicted ones by %.3g" % (where, caseio.maxdiff(clw, plw))))
         elif res == 1:
             if not np.all(np.abs(clw + math.log(N)) <= 1e-15):
@@ -318,24 +489,48 @@ def oracle(c, impl, model):
                                                    and same_bits(cmc[1][:, j * dd:(j + 1) * dd], pmc[1][:, int(par[j]) * dd:(int(par[j]) + 1) * dd]))]
                 if bad:
                     v.append(("C06:resampled-not-copy", "%s: particle %d is not a copy of its parent %d" % (where, bad[0], int(par[bad[0]]))))
+                # the selection: the offset is the next draw of the generator the filter was built with (mirrored by the harness from
+                # the seed, across moves of the Resampling object), the parents are those of the comb u1 + j/N on the prescribed weights
+                u1 = impl.get("u1_" + sk)
+                csw = np.cumsum(np.exp(spec))
+                comb = u1 + np.arange(N) / float(N)
+                if u1 is not None and float(np.min(np.abs(comb.reshape(-1, 1) - csw.reshape(1, -1)))) > 1e-9:
+                    exp_par = np.minimum(np.searchsorted(csw, comb, side="left"), N - 1)
+                    if not np.array_equal(exp_par, par.astype(int)):
+                        v.append(("C06:resampling-selection", "%s: parents %s, the comb at the generator's offset %.6g selects %s" % (where, par[:8], u1, exp_par[:8])))
         else:
             v.append(("C06:resampling-trigger", "%s: %d resample calls in one step" % (where, res)))
-        prev_clw, prev_cst = clw, cst
+        prev_clw, prev_cst, prev_cmc = clw, cst, cmc
+        exp_lstep += 1
+        if resets[k] == "1" and k < K - 1:
+            ninit += 1; exp_lstep = 0
+            _stats["resets"] += 1
         if near:
             break
     _res_count[c.id] = nres
     _stats["resamplings"] += nres
     _stats["freeze_failures"] += int(c.meta["nfail"])
+    _stats["commands"] += sum(len(t.split(",")) for t in c.get("cmd") if t != "none")
+    if impl.get("intruder_calls") is not None:
+        _stats["histories_with_intruder"] += 1
+        _stats["intruder_calls"] += impl.get("intruder_calls")
+    if impl.get("conc_ok") is not None:
+        _stats["concurrent_probes"] += 1
     return v
 
 
 def histogram(cases):
-    h = {"N": {}, "layout": {}}
+    h = {"N": {}, "layout": {}, "exo": {}, "lifetimes": {}, "likmodel": {}}
     for c in cases:
         b = "1-5" if int(c.meta["N"]) <= 5 else ("6-20" if int(c.meta["N"]) <= 20 else "21-50")
         h["N"][b] = h["N"].get(b, 0) + 1
         l = "%s+%s" % (c.meta["dl"], c.meta["dc"])
         h["layout"][l] = h["layout"].get(l, 0) + 1
+        h["exo"][c.meta.get("exo", "0")] = h["exo"].get(c.meta.get("exo", "0"), 0) + 1
+        h["likmodel"][c.meta.get("likmodel")] = h["likmodel"].get(c.meta.get("likmodel"), 0) + 1
+        for part in ("pred", "corr", "res"):
+            key = "%s:%s%s" % (part, c.meta.get("life_" + part, "fresh"), "+used" if str(c.meta.get("used_" + part, 0)) == "1" else "")
+            h["lifetimes"][key] = h["lifetimes"].get(key, 0) + 1
     h.update(_stats)
     return h
 
@@ -343,8 +538,12 @@ def histogram(cases):
 LEVEL_TEXT = ("Proof: the model of SIS::filtering_step (prediction skipped at step 0, freeze, bootstrap re-weighting lw += ln(lik + tiny), log-sum-exp "
               "normalisation, fall-back to the predicted set, resampling iff neff < N/3 with the C07 resampling model and the layout of the corrected set) "
               "is proved over the reals, by induction over all event lists, to keep N particles, the layout and lse(lw) = 0 after every step; every argument of ln "
-              "is positive; the re-weighting formula, the no-measurement clause and the resampling trigger hold. The model is tied to the code by running the "
-              "extracted model and a synchronously driven probe subclass of SIS on the same generated histories.")
-LEVEL_NOTE = ("Trusted: Coq kernel + the 4 real-number axioms, extraction + float driver, harness (probe subclass, scripted models, RNG mirror); rounding is not "
-              "modelled; near-boundary decisions end the comparison of a history; the tie to the code is sampled. Resampling implementations other than the base "
-              "class, and PFPrediction implementations that change weights (GPFPrediction belongs to C08), are outside the model.")
+              "is positive; the re-weighting formula, the no-measurement clause and the resampling trigger hold. A command-level layer (raw skip(name, status) "
+              "commands dispatched by the C13 model with or without exogenous model, steps, FilteringAlgorithm::reset()) carries the invariant and every "
+              "per-step clause to EVERY history of raw commands, with the premises stated on the commands themselves (status of the last command touching "
+              "the flag). The model is tied to the code by running the extracted command-level model and a probe subclass of SIS, run by the library's own "
+              "filtering thread, on the same generated histories; the flags of a step are computed by the extracted dispatch only.")
+LEVEL_NOTE = ("Trusted: Coq kernel + the 4 real-number axioms, extraction + float driver (incl. the token -> command translation), harness (probe subclass, "
+              "scripted models, RNG mirror); rounding is not modelled; near-boundary decisions end the comparison of a history; the tie to the code is sampled. "
+              "Resampling implementations other than the base class, and PFPrediction implementations that change weights (GPFPrediction belongs to C08), are "
+              "outside the model. BootstrapCorrection's move ASSIGNMENT is not exercised (it leaves the target's models in place: reported).")
